@@ -25,6 +25,7 @@ pub fn e2e_cases_leg(args: &Args, ncases: u64, stream: u64, leg: Option<(String,
       return;
     }
     install_probe_logger();
+    install_panic_counter();
     if std::env::var("VERIF_LEG").map_or(false, |l| l == "secure") {
       secure_case(seed, stream, i, ncases, &fixtures, acc, br);
       return;
@@ -38,6 +39,7 @@ pub fn e2e_cases_leg(args: &Args, ncases: u64, stream: u64, leg: Option<(String,
     let tag = json!({"seed": seed, "stream": stream, "index": i, "engine": "stack-real-participants"});
     br.set_case(json!({"case": tag, "scenario": stk2::scenario_json(&sc)}));
     let out = stk2::run_scenario(&sc, domain, acc, &tag, i);
+    acc.count("e2e_panics_of_library_threads_observed_not_judged", take_lib_thread_panics());
     acc.evaluations += 1;
     acc.count("e2e_pairs_expected_to_match", out.pairs_expected);
     acc.count("e2e_status_events_observed", out.match_events);
@@ -100,6 +102,7 @@ fn secure_case(seed: u64, stream: u64, i: u64, ncases: u64, fixtures: &std::path
   }
   acc.merge(sub);
   acc.evaluations += 1;
+  acc.count("secure:panics_of_library_threads_observed_not_judged", take_lib_thread_panics());
   acc.count("secure:pairs_expected_to_match", out.pairs_expected);
   acc.count("secure:status_events_observed", out.match_events);
   acc.count("secure:unmatches_observed_after_deletion", out.unmatch_events);
@@ -186,6 +189,25 @@ pub fn run_c07(args: &Args) -> i32 {
   rep.require("e2e_values_received_and_compared", 200);
   rep.require("e2e_unmatches_observed_after_deletion", 5);
   rep.finish(acc)
+}
+
+/// Panics of the library's own threads ("RustDDS ..." thread names) while a scenario runs: counted and shown in the
+/// evidence, not judged by C07 (no rule of the statement speaks of them; see DESIGN.md section 6).
+static LIB_THREAD_PANICS: std::sync::atomic::AtomicU64 = std::sync::atomic::AtomicU64::new(0);
+fn install_panic_counter() {
+  static ONCE: std::sync::Once = std::sync::Once::new();
+  ONCE.call_once(|| {
+    let prev = std::panic::take_hook();
+    std::panic::set_hook(Box::new(move |info| {
+      if std::thread::current().name().map_or(false, |n| n.starts_with("RustDDS")) {
+        LIB_THREAD_PANICS.fetch_add(1, std::sync::atomic::Ordering::SeqCst);
+      }
+      prev(info);
+    }));
+  });
+}
+fn take_lib_thread_panics() -> u64 {
+  LIB_THREAD_PANICS.swap(0, std::sync::atomic::Ordering::SeqCst)
 }
 
 fn install_probe_logger() {
